@@ -219,8 +219,93 @@ def _run_case(item):
     return PROBES[item[0]](item[1])
 
 
+def _history_case(inp):
+    """run a sequence of Forward/Backward ops of differentiable SCF jobs on the REAL code and observe which tolerance each backward used"""
+    import torch
+
+    import seqm.seqm_functions.scf_loop as S
+    from seqm.basics import Energy
+    from seqm.Molecule import Molecule
+    from seqm.seqm_functions.constants import Constants
+
+    jobs = inp["jobs"]  # list of (eps_exponent, method_index)
+    methods = ["MNDO", "AM1", "PM3"]
+    used = []
+    orig = S.fixed_point_picard
+
+    def w(fp_fun, u0, tol, *a, **k):
+        used.append(float(tol))
+        return orig(fp_fun, u0, tol, *a, **k)
+    S.fixed_point_picard = w
+    outs = {}
+    res = []
+    try:
+        for op, j in inp["ops"]:
+            ee, mi = jobs[j]
+            if op == 0:
+                sp = esh.settings(method=methods[mi], eps=10.0 ** -ee, converger=[1], scf_backward=1)
+                s, x, ch, mu = esh.batch([["h2o"], ["hcn"], ["nh3"]][j % 3])
+                with contextlib.redirect_stdout(io.StringIO()):
+                    mol = Molecule(Constants(), sp, torch.as_tensor(x), torch.as_tensor(s))
+                    out = Energy(sp)(mol, all_terms=True)
+                outs[j] = (out[6].sum(), mol)
+            else:
+                if j not in outs:
+                    res.append("-")
+                    continue
+                used.clear()
+                y, mol = outs[j]
+                torch.autograd.grad(y, mol.coordinates, retain_graph=True)
+                res.append(used[-1] if used else None)
+    finally:
+        S.fixed_point_picard = orig
+    return res
+
+
+def corr_history(ctx: Ctx, drv):
+    rng = ctx.rng
+    cases = []
+    for it in range(10 if ctx.thorough else 4):
+        nj = int(rng.integers(2, 4))
+        jobs = [(int(rng.integers(5, 11)), int(rng.integers(0, 3))) for _ in range(nj)]
+        ops = [(0, j) for j in range(nj)]
+        rng.shuffle(ops)
+        ops = [tuple(o) for o in ops] + [(1, int(rng.integers(0, nj))) for _ in range(2)]
+        if it % 2 == 0:  # interleave a fresh forward of another job between a job's forward and its backward
+            ops.insert(len(ops) - 1, (0, int(rng.integers(0, nj))))
+        cases.append({"jobs": jobs, "ops": [list(o) for o in ops]})
+    results = mdh.pmap(_history_case, cases, nproc=6, timeout=1200)
+    for c, r in zip(cases, results):
+        if isinstance(r, Exception) or r is None:
+            ctx.obligation("history correspondence evaluated", False, repr(r)[-1200:], kind="harness")
+            continue
+        toks = ["history", len(c["jobs"])]
+        for ee, mi in c["jobs"]:
+            toks += [ee, mi]
+        toks += [len(c["ops"])]
+        for op, j in c["ops"]:
+            toks += [op, j]
+        ans = drv.ask(*toks)
+        # model answers `eps,method` per backward with eps given as the integer exponent token we passed
+        want = []
+        for v in r:
+            want.append("-" if v == "-" else (None if v is None else int(round(-np.log10(v)))))
+        got = [a.split(",")[0] for a in ans]
+        ok = len(got) == len(want) and all((w_ == "-" and g_ == "-") or (w_ is not None and w_ != "-" and g_ != "-" and int(g_) == w_) for g_, w_ in zip(got, want))
+        ctx.corr_case("SCF backward registers (history)", c, ans, want, ok, stratum="interleaved" if len(c["ops"]) > len(c["jobs"]) + 2 else "nested")
+
+
 def run(ctx: Ctx):
     leanproj.check_theorems(ctx, MODULE, THEOREMS)
+    drv = leanproj.Driver()
+    try:
+        try:
+            corr_history(ctx, drv)
+        except Exception:
+            import traceback
+            ctx.obligation("correspondence adapters C15 ran", False, traceback.format_exc()[-1500:], kind="harness")
+    finally:
+        drv.close()
     cases = gen_cases(ctx)
     # NOTE: this process has not run any calculation yet, so forked children start from a fresh package state
     results = mdh.pmap(_run_case, cases, nproc=8, timeout=2400)
